@@ -73,7 +73,7 @@ fn gen_reply_fault(s: &mut Sched) -> ReplyFault {
         10 | 11 | 12 => ReplyFault::Replay { pick: s.u64() % 1000 },
         13 => ReplyFault::IdentityBytes,
         14 => ReplyFault::IdentityValue,
-        _ => ReplyFault::Replay { pick: s.u64() % 1000 },
+        _ => ReplyFault::AltTag { variant: s.usize(10) as u8 },
     }
 }
 
